@@ -67,7 +67,7 @@ func main() {
 			fmt.Println(f.Detail)
 			fmt.Printf("VIOLATION property=%s replay=%s\n", v.Property, *replay)
 			os.Exit(1)
-		case <-time.After(150 * time.Second):
+		case <-time.After(60 * time.Second):
 			fmt.Println("REPLAY-HANG")
 			os.Exit(3)
 		}
